@@ -379,8 +379,14 @@ def operand_matrix():
             out.append(("slice_of", ("slice", a, b, None, None)))
             out.append(("slice_arg", ("slice", ("arr", [one, two]), a, b, None)))
             out.append(("slice_step", ("slice", ("arr", [one, two]), None, b, a)))
-        out.append(("plus_field", ("bin", "+", ("obj", [("field", ("id", "a"), False, 1, a)]),
-                                   ("obj", [("field", ("id", "a"), True, 1, one)]))))
+        for b in vals:
+            # +: with every pair of (inherited value, added value), as a fixed, a computed and a comprehension field
+            out.append(("plus_field", ("dot", ("bin", "+", ("obj", [("field", ("id", "a"), False, 1, a)]),
+                                               ("obj", [("field", ("id", "a"), True, 1, b)])), "a")))
+        out.append(("plus_field_computed", ("dot", ("bin", "+", ("obj", [("field", ("id", "a"), False, 1, a)]),
+                                                    ("obj", [("field", ("ename", genprog.s("a")), True, 1, genprog.s("x"))])), "a")))
+        out.append(("plus_field_objcomp", ("dot", ("bin", "+", ("obj", [("field", ("id", "a"), False, 1, a)]),
+                                                   ("objcomp", [], ("var", "ck"), True, genprog.s("y"), [], [("sfor", "ck", ("arr", [genprog.s("a")]))])), "a")))
         out.append(("insuper", ("bin", "+", ("obj", [("field", ("id", "a"), False, 1, one)]),
                                  ("obj", [("field", ("id", "b"), False, 1, ("insuper", a))]))))
         out.append(("superidx", ("bin", "+", ("obj", [("field", ("id", "a"), False, 1, one)]),
